@@ -20,6 +20,8 @@ pub enum Class {
     L,
     /// fn(&Widget) -> u64   (method)
     M,
+    /// async fn (the compiler-generated poll function is what gets patched)
+    A,
 }
 
 pub const SIG_U: &str = "fn() -> u64";
@@ -56,6 +58,29 @@ pub fn t_b0() -> bool {
 pub fn t_b1() -> bool {
     ORIG_RUNS.fetch_add(1, SeqCst);
     black_box(true)
+}
+
+struct YieldOnce(bool);
+impl std::future::Future for YieldOnce {
+    type Output = ();
+    fn poll(mut self: std::pin::Pin<&mut Self>, _cx: &mut std::task::Context<'_>) -> std::task::Poll<()> {
+        if self.0 {
+            std::task::Poll::Ready(())
+        } else {
+            self.0 = true;
+            std::task::Poll::Pending
+        }
+    }
+}
+pub async fn t_a0(x: u32) -> u32 {
+    ORIG_RUNS.fetch_add(1, SeqCst);
+    YieldOnce(false).await;
+    black_box(x + 600)
+}
+pub async fn t_a1(x: u64) -> u64 {
+    ORIG_RUNS.fetch_add(1, SeqCst);
+    YieldOnce(false).await;
+    black_box(x + 700)
 }
 
 pub struct Widget {
@@ -131,6 +156,13 @@ pub enum Kind {
     Bool(bool),
     /// fake!(..., times: n) + will_execute   (class U only): scope exit panics unless exactly n calls were made
     Times(u8),
+    /// async_func! + when_called_async + will_return_async   (class A only)
+    Async,
+    /// async_func_unchecked! + when_called_async_unchecked + will_return_async_unchecked   (class A only)
+    AsyncUnchecked,
+    /// a fake living in the target's own code arena (synthetic targets only): bit 0 selects the
+    /// page-aligned or the unaligned one, bits 1.. the API (raw / unchecked / will_execute)
+    ArenaFake(u8),
 }
 
 pub static TIMES_H: [std::sync::atomic::AtomicUsize; 4] = [const { std::sync::atomic::AtomicUsize::new(0) }; 4];
@@ -145,6 +177,9 @@ pub struct Target {
     /// call it the way user code would
     pub call: Box<dyn Fn() -> u64>,
     pub synthetic: bool,
+    /// synthetic targets: (address, returned value) of fake functions living in the same code
+    /// arena as the target (the first one page-aligned)
+    pub arena_fakes: Vec<(usize, u64)>,
 }
 
 fn widget() -> &'static Widget {
@@ -165,6 +200,7 @@ pub fn real_targets() -> Vec<Target> {
                 checked: Box::new(|| $mk),
                 call: Box::new(|| $f()),
                 synthetic: false,
+                arena_fakes: vec![],
             });
         };
     }
@@ -180,6 +216,7 @@ pub fn real_targets() -> Vec<Target> {
         checked: Box::new(|| injectorpp::func!(t_gen::<u32>, fn() -> u64)),
         call: Box::new(|| t_gen::<u32>()),
         synthetic: false,
+        arena_fakes: vec![],
     });
     v.push(Target {
         name: "t_gen::<u64>".into(),
@@ -189,6 +226,7 @@ pub fn real_targets() -> Vec<Target> {
         checked: Box::new(|| injectorpp::func!(t_gen::<u64>, fn() -> u64)),
         call: Box::new(|| t_gen::<u64>()),
         synthetic: false,
+        arena_fakes: vec![],
     });
     v.push(Target {
         name: "t_b0".into(),
@@ -198,6 +236,7 @@ pub fn real_targets() -> Vec<Target> {
         checked: Box::new(|| injectorpp::func!(fn (t_b0)() -> bool)),
         call: Box::new(|| t_b0() as u64),
         synthetic: false,
+        arena_fakes: vec![],
     });
     v.push(Target {
         name: "t_b1".into(),
@@ -207,6 +246,7 @@ pub fn real_targets() -> Vec<Target> {
         checked: Box::new(|| injectorpp::func!(t_b1, fn() -> bool)),
         call: Box::new(|| t_b1() as u64),
         synthetic: false,
+        arena_fakes: vec![],
     });
     v.push(Target {
         name: "libc::labs".into(),
@@ -216,6 +256,7 @@ pub fn real_targets() -> Vec<Target> {
         checked: Box::new(|| injectorpp::func!(unsafe{} extern "C" fn (libc::labs)(libc::c_long) -> libc::c_long)),
         call: Box::new(|| unsafe { libc::labs(black_box(-5)) as u64 }),
         synthetic: false,
+        arena_fakes: vec![],
     });
     v.push(Target {
         name: "Widget::weigh".into(),
@@ -225,8 +266,36 @@ pub fn real_targets() -> Vec<Target> {
         checked: Box::new(|| injectorpp::func!(fn (Widget::weigh)(&Widget) -> u64)),
         call: Box::new(|| widget().weigh()),
         synthetic: false,
+        arena_fakes: vec![],
     });
     v
+}
+
+/// Async targets (histories only): the address is that of the future's `poll`.
+pub fn async_targets() -> Vec<Target> {
+    use crate::asyncs::{poll_addr, run};
+    vec![
+        Target {
+            name: "t_a0 (async)".into(),
+            class: Class::A,
+            addr: poll_addr(&t_a0(0)),
+            orig: 607,
+            checked: Box::new(|| unreachable!("async targets are installed through when_called_async")),
+            call: Box::new(|| run(t_a0(black_box(7))).0 as u64),
+            synthetic: false,
+            arena_fakes: vec![],
+        },
+        Target {
+            name: "t_a1 (async)".into(),
+            class: Class::A,
+            addr: poll_addr(&t_a1(0)),
+            orig: 707,
+            checked: Box::new(|| unreachable!("async targets are installed through when_called_async")),
+            call: Box::new(|| run(t_a1(black_box(7))).0),
+            synthetic: false,
+            arena_fakes: vec![],
+        },
+    ]
 }
 
 /// Untouched bystanders (never named in an installation): (name, call, original value, addr).
@@ -259,6 +328,7 @@ pub fn synthetic_target(addr: usize, class: Class, orig: u64, name: String) -> T
             }
         }),
         synthetic: true,
+        arena_fakes: vec![],
     }
 }
 
@@ -275,7 +345,24 @@ pub const N_FAKES: usize = 4;
 /// API.  Panics exactly when the library panics.
 pub fn install(inj: &mut InjectorPP, t: &Target, kind: Kind, k: usize) -> Installed {
     let k = k % N_FAKES;
+    // async kinds only exist for async targets: callers map kinds through legal_kinds first
+    let kind = if t.class != Class::A && matches!(kind, Kind::Async | Kind::AsyncUnchecked) { Kind::Raw } else { kind };
+    let kind = if matches!(kind, Kind::ArenaFake(_)) && (t.arena_fakes.is_empty() || !matches!(t.class, Class::U | Class::B)) { Kind::Raw } else { kind };
+    if let Kind::ArenaFake(w) = kind {
+        let (fa, val) = t.arena_fakes[(w & 1) as usize % t.arena_fakes.len()];
+        let sig: &'static str = if t.class == Class::B { SIG_B } else { SIG_U };
+        unsafe {
+            match (w >> 1) % 3 {
+                0 => inj.when_called(FuncPtr::new(t.addr as *const (), sig)).will_execute_raw(FuncPtr::new(fa as *const (), sig)),
+                1 => inj.when_called_unchecked(FuncPtr::new(t.addr as *const (), "")).will_execute_raw_unchecked(FuncPtr::new(fa as *const (), "")),
+                _ => inj.when_called(FuncPtr::new(t.addr as *const (), sig)).will_execute((FuncPtr::new(fa as *const (), sig), CallCountVerifier::Dummy)),
+            }
+        }
+        return Installed { value: val, dest: Some(fa) };
+    }
     match (t.class, kind) {
+        (_, Kind::ArenaFake(_)) => unreachable!(),
+        (Class::U, Kind::Async) | (Class::U, Kind::AsyncUnchecked) | (Class::B, Kind::Async) | (Class::B, Kind::AsyncUnchecked) => unreachable!(),
         (Class::U, Kind::Raw) => {
             let (fp, val, dest) = match k {
                 0 => (injectorpp::func!(fn (f_u0)() -> u64), 1000, f_u0 as fn() -> u64 as usize),
@@ -379,6 +466,28 @@ pub fn install(inj: &mut InjectorPP, t: &Target, kind: Kind, k: usize) -> Instal
             inj.when_called((t.checked)()).will_execute_raw(fp);
             Installed { value: val, dest: Some(dest) }
         }
+        (Class::A, kind) => {
+            let first = t.orig == 607;
+            let unchecked = kind == Kind::AsyncUnchecked;
+            macro_rules! go {
+                ($fut:expr, $ty:ty, $val:expr) => {
+                    if unchecked {
+                        unsafe {
+                            inj.when_called_async_unchecked(injectorpp::async_func_unchecked!($fut)).will_return_async_unchecked(injectorpp::async_return_unchecked!($val, $ty));
+                        }
+                    } else {
+                        inj.when_called_async(injectorpp::async_func!($fut, $ty)).will_return_async(injectorpp::async_return!($val, $ty));
+                    }
+                };
+            }
+            match (first, k % 2) {
+                (true, 0) => go!(t_a0(0), u32, 5000),
+                (true, _) => go!(t_a0(0), u32, 5001),
+                (false, 0) => go!(t_a1(0), u64, 5000),
+                (false, _) => go!(t_a1(0), u64, 5001),
+            }
+            Installed { value: 5000 + (k % 2) as u64, dest: None }
+        }
         (Class::M, Kind::Closure) => {
             let fp = injectorpp::closure!(|_w: &Widget| -> u64 { black_box(8100) }, fn(&Widget) -> u64);
             inj.when_called((t.checked)()).will_execute_raw(fp);
@@ -412,6 +521,7 @@ pub fn legal_kinds(class: Class) -> Vec<Kind> {
     match class {
         Class::B => vec![Kind::Raw, Kind::Closure, Kind::FakeMacro, Kind::Unchecked, Kind::Bool(true), Kind::Bool(false)],
         Class::U => vec![Kind::Raw, Kind::Closure, Kind::FakeMacro, Kind::Unchecked, Kind::Times(0), Kind::Times(1), Kind::Times(2)],
+        Class::A => vec![Kind::Async, Kind::AsyncUnchecked],
         _ => vec![Kind::Raw, Kind::Closure, Kind::FakeMacro, Kind::Unchecked],
     }
 }
